@@ -31,6 +31,17 @@ def _fn_of_call(ctx, e):
     for fid in (via, res):
         if fid and fid in F.fns:
             return F.fns[fid]
+    # `iter.collect::<B>()` is by definition `<B as FromIterator<_>>::from_iter(iter)`: for a workspace collection B its own impl
+    if e[1] == "std::iter::Iterator::collect" and len(e[3]) == 1:
+        try:
+            ta = F.fns[e[4][-2]].blocks[e[4][-1]]["term"].get("targs") or []
+            b = ta[1].get("path") if len(ta) == 2 and ta[1].get("k") == "adt" else None
+        except Exception:
+            b = None
+        if b:
+            c = [g for fid, g in F.fns.items() if fid.startswith("<" + b) and " as std::iter::FromIterator<" in fid and fid.endswith(">::from_iter")]
+            if len(c) == 1:
+                return c[0]
     return None
 
 
@@ -38,7 +49,13 @@ def collected_in_order(src):
     """pattern: the Vec of the items of `src`, in order - `src.into_iter().collect()` or `Vec::from_iter(src)`"""
     a = Call("Iterator::collect", Call("IntoIterator::into_iter", src, nargs=1), nargs=1)
     b = Call("FromIterator::from_iter", src, nargs=1)
-    return lambda e: match(e, a) or (match(e, b) and (e[2] or "").startswith("<std::vec::Vec<"))
+
+    def once_converted(e):
+        # into_iter() of what already is an iterator is the identity (core's blanket `impl<I: Iterator> IntoIterator for I`)
+        while match(e, Call("Iterator::collect", Call("IntoIterator::into_iter", Call("IntoIterator::into_iter", ANY, nargs=1), nargs=1), nargs=1)):
+            e = (e[0], e[1], e[2], (e[3][0][3][0],), e[4])
+        return e
+    return lambda e: match(once_converted(e), a) or (match(e, b) and (e[2] or "").startswith("<std::vec::Vec<"))
 
 
 def flatten(ctx, e, depth=0, seen=()):
@@ -55,7 +72,7 @@ def flatten(ctx, e, depth=0, seen=()):
             except Exception:
                 ps = []
             allp = ctx.paths(g)
-            if len(ps) == 1 and len(allp) == 1 and not ps[0].conds and not [ev for ev in ps[0].events if ev[0] in ("write", "assert")]:
+            if len(ps) == 1 and len(allp) == 1 and not ps[0].conds and not [ev for ev in ps[0].events if ev[0] in ("write", "assert")] and not mutated_after_construction(ps[0]):
                 mapping = {("param", i + 1): a for i, a in enumerate(args)}
                 body = subst_params(ps[0].ret, mapping)
                 return flatten(ctx, body, depth + 1, seen + (g.id,))
@@ -82,7 +99,37 @@ def value_of(ctx, fn):
     ps = return_paths(allp)
     if len(ps) != 1 or len(allp) != 1 or ps[0].conds:
         return None
+    if mutated_after_construction(ps[0]):
+        return None
     return flatten(ctx, ps[0].ret, 0, (fn.id,))
+
+
+def mutated_after_construction(p):
+    """the returned expression describes the returned value only if nothing changed a part of it in place after it was
+    computed: a call on the path that takes `&mut` to a (sub)value the result is built from (`genes.reverse()`,
+    `weights.clear()`), or a write into it, makes the expression a description of some earlier state"""
+    from .sym import subexprs
+    if p.ret is None:
+        return False
+    parts = {x for x in subexprs(p.ret) if isinstance(x, tuple) and x and x[0] in ("call", "agg")}
+
+    def target(a):
+        while isinstance(a, tuple) and a and a[0] in ("ref", "deref", "field", "index"):
+            if a[0] == "ref" and len(a) > 2 and a[2] and _base(a[1]) in parts:
+                return True
+            a = a[1]
+        return False
+
+    def _base(a):
+        while isinstance(a, tuple) and a and a[0] in ("ref", "deref", "field", "index"):
+            a = a[1]
+        return a
+    for ev in p.events:
+        if ev[0] == "call" and any(target(a) for a in ev[1][3]) and ev[1] not in parts:
+            return True
+        if ev[0] == "write" and _base(ev[1]) in parts:
+            return True
+    return False
 
 
 def check_ctor(ctx, rule, key, fid, pat, fields=None, adt=None, optional=False):
